@@ -77,6 +77,9 @@ fn move_probes(probes: &mut Counters, history: &[Pos], line: &str) {
                 if mv.promo != 0 {
                     probes.add("rights_lost_by_promoting_capture", 1);
                 }
+                if kind(p.sq[mv.from as usize]) == KING {
+                    probes.add("rights_lost_by_a_king_capturing_the_corner_rook", 1);
+                }
             }
         }
         if mv.flags & F_DOUBLE != 0 {
@@ -166,8 +169,13 @@ pub fn run_scenario(sc: &Scenario) -> Judged {
     // (only what it is after a position command), so nothing is compared until the next one
     let mut expected_known = true;
     let mut prev_was_position = false;
+    let mut last_start: Option<Pos> = None;
+    let mut new_game_since_last_start = false;
     for line in &sc.lines {
         let tok = line.split_whitespace().next().unwrap_or("");
+        if tok == "ucinewgame" {
+            new_game_since_last_start = true;
+        }
         let o = sess.cmd(line);
         match tok {
             "position" => {
@@ -181,6 +189,15 @@ pub fn run_scenario(sc: &Scenario) -> Judged {
                     j.probes.add("position_after_position", 1);
                 }
                 move_probes(&mut j.probes, &hist, line);
+                if let Some(s0) = hist.first() {
+                    if let Some(l0) = &last_start {
+                        if l0.sq == s0.sq && l0.white_to_move == s0.white_to_move && (l0.castle != s0.castle || l0.ep != s0.ep) && !new_game_since_last_start {
+                            j.probes.add("start_is_a_lookalike_of_the_previous_start_other_rights_or_ep", 1);
+                        }
+                    }
+                    last_start = Some(s0.clone());
+                    new_game_since_last_start = false;
+                }
                 if line.contains(" fen ") || line.contains("\tfen") {
                     let f: Vec<&str> = line.split_whitespace().collect();
                     if f.len() >= 8 {
@@ -380,6 +397,41 @@ pub fn generate(seed: u64) -> Scenario {
                 lines.push("isready".to_string());
             }
             continue;
+        }
+        // look-alike pair in one session: first the position without a castling right / ep
+        // square (one move played from it), then, with no ucinewgame in between, the same
+        // placement with it and the move that exists only because of it
+        if rng.chance(1, 10) {
+            if let Some((without, with, needs)) = gen::rights_twin(&mut rng) {
+                let first = rng.pick(&without.legal_moves()).clone();
+                lines.push(format!("position fen {} moves {}", without.to_fen(), first.uci()));
+                match rng.below(4) {
+                    0 => lines.push("isready".to_string()),
+                    1 => lines.push("go depth 1".to_string()),
+                    _ => {}
+                }
+                let after = with.make(&needs);
+                let k = rng.usize_below(6);
+                let (more, _) = gen::playout(&mut rng, &after, k, 1);
+                let mut ms = vec![needs];
+                ms.extend(more);
+                lines.push(format!("position fen {} moves {}", with.to_fen(), gen::moves_uci(&ms).join(" ")));
+                sent.push((format!("fen {}", with.to_fen()), with, ms));
+                continue;
+            }
+        }
+        // a king captures an unmoved rook on its home corner (the opponent's right must go)
+        if rng.chance(1, 12) {
+            if let Some((p, m)) = gen::king_takes_corner_rook(&mut rng) {
+                let after = p.make(&m);
+                let k = rng.usize_below(10);
+                let (more, _) = gen::playout(&mut rng, &after, k, 1);
+                let mut ms = vec![m];
+                ms.extend(more);
+                lines.push(format!("position fen {} moves {}", p.to_fen(), gen::moves_uci(&ms).join(" ")));
+                sent.push((format!("fen {}", p.to_fen()), p, ms));
+                continue;
+            }
         }
         let (root, start) = if rng.chance(1, 2) {
             ("startpos".to_string(), Pos::startpos())
